@@ -179,12 +179,14 @@ def build(t):
         c = getattr(xo, XONAME[t[1]])
     elif k == "Str":
         c = xo.String
-    elif k == "A" and DECL[0] == "subclass":
+    elif k == "A" and DECL[0] in ("subclass", "subclass-np"):
         # the array class is DECLARED (class statement with _itemtype / _shape / _order) instead of being made by indexing;
         # C order: no _order for rank 1, "C" otherwise; Fortran order: "F"; any other order: the tuple
         it = build(t[1])
         rank = len(t[2])
         data = {"_itemtype": it, "_shape": tuple(t[2])}
+        if DECL[0] == "subclass-np":  # the declared extents are numpy integers (a shape computed with numpy)
+            data["_shape"] = tuple(d if d is None else np.int64(d) for d in t[2])
         if tuple(t[3]) == tuple(range(rank)):
             if rank > 1:
                 data["_order"] = "C"
